@@ -1,16 +1,31 @@
-"""warm caches: sanitizer libs of the current /repo tree, harnesses, model drivers"""
-import os, sys, importlib
+"""setup / cache warm-up: for every claimed property build its Coq targets (full .vo), the model
+driver, the sanitizer libs of the current /repo tree and the harness."""
+import os, sys, json, importlib
 here = os.path.dirname(os.path.dirname(os.path.abspath(__file__)))
 sys.path.insert(0, os.path.join(here, "lib")); sys.path.insert(0, os.path.join(here, "props"))
 import vcheck
-for f in sorted(os.listdir(os.path.join(here, "props"))):
-    if f.startswith("c") and f.endswith(".py"):
-        P = importlib.import_module(f[:-3]).PROP
-        try:
-            if hasattr(P, "warm"):
-                P.warm()
-            else:
-                vcheck.build_harness(P.harness_src, P.libs, extra=P.extra_harness_flags)
-                vcheck.build_model(P.mlname, P.driver, P.extract_vo)
-        except Exception as ex:
-            print("warm %s: %s" % (f, str(ex)[:300]))
+m = json.load(open(os.path.join(here, "MANIFEST.json")))
+ids = [c["property_id"] for c in m["checks"]]
+fail = 0
+targets = []
+mods = []
+for pid in ids:
+    P = importlib.import_module(pid.lower()).PROP
+    mods.append(P)
+    targets.append("%s/%s" % (P.coq_dir, P.propfile.replace(".v", ".vo")))
+    targets.append(P.extract_vo)
+rc, o = vcheck.coq_make(sorted(set(targets)), timeout=3000)
+if rc:
+    print("coq build failed:\n" + o[-3000:])
+    fail = 1
+for P in mods:
+    try:
+        if hasattr(P, "warm"):
+            P.warm()
+        else:
+            vcheck.build_harness(P.harness_src, P.libs, extra=P.extra_harness_flags)
+            vcheck.build_model(P.mlname, P.driver, P.extract_vo)
+    except Exception as ex:
+        print("warm %s: %s" % (P.pid, str(ex)[:600]))
+        fail = 1
+sys.exit(fail)
